@@ -105,8 +105,9 @@ Definition add_n_bit_change (se : signal_encoder) (time_index : N) (value : list
   | EncBits bits =>
     if Nat.eqb bits 1 then
       match value with
-      | v0 :: _ => Ok (mk_se (se_data se ++ leb_write (delta * 16 + v0)) (se_tpe se) time_index mx)
-      | [] => Panic
+      | [v0] => if 15 <? v0 then Panic                          (* debug_assert!(value[0] <= 0xf) *)
+                else Ok (mk_se (se_data se ++ leb_write (delta * 16 + v0)) (se_tpe se) time_index mx)
+      | _ => Panic                                              (* debug_assert_eq!(value.len(), 1) *)
       end
     else
       let required := div_ceil bits (per_byte st) in
@@ -115,8 +116,15 @@ Definition add_n_bit_change (se : signal_encoder) (time_index : N) (value : list
       let min_states := check_min_state value st in
       do packed <- (if states_eqb min_states st then Ok value
                     else compress_template value st min_states bits);
-      Ok (mk_se (se_data se ++ leb_write (delta * 4 + states_num min_states) ++ packed)
-                (se_tpe se) time_index mx)
+      (* debug build: "make sure the leading bits are 0" *)
+      let in_first := (N.of_nat bits * sbits min_states) mod 8 in
+      match packed with
+      | [] => Panic                                             (* self.data[data_start_index] *)
+      | b0 :: _ =>
+        if (0 <? in_first) && (2 ^ in_first <=? b0) then Panic
+        else Ok (mk_se (se_data se ++ leb_write (delta * 4 + states_num min_states) ++ packed)
+                       (se_tpe se) time_index mx)
+      end
   | _ => Panic
   end.
 
